@@ -99,12 +99,22 @@ def run_case(case, ctx):
     ctx.cls("n_fixed", len(fixed))
     ctx.sig = f"{fam}|{sorted(fixed)}|{method}|{case['source']}|{case['sub']}"
     kw = {f"f_{k}": v for k, v in fixed.items()}
+    # documented: "if f_<name> is set, <name> is ignored" - a decoy plain value is passed as well, after or before the
+    # fixed one (keyword order must not matter)
+    decoy_mode = case["sub"] % 3
+    if decoy_mode == 1:
+        kw = {**kw, **{k: v * 1.37 + 0.11 for k, v in fixed.items()}}
+    elif decoy_mode == 2:
+        kw = {**{k: v * 1.37 + 0.11 for k, v in fixed.items()}, **kw}
+    ctx.cls("decoy-plain-value", ["none", "after-fixed", "before-fixed"][decoy_mode])
     d = cls(**kw)
     info = {"family": fam, "fixed": fixed, "method": method}
 
     # 1. construction
     ok = all(abs(d.parameters[k] - v) <= 1e-12 * max(1.0, abs(v)) for k, v in fixed.items())
     mech = "vonmises-init-ignores-fixed" if (fam == "vonmises" and not ok and all(d.parameters[k] == R.DEFAULTS[fam][k] for k in fixed)) else None
+    if not ok and fam in S.SCIPY_SUB and decoy_mode == 1 and all(d.parameters[k] == kw[k] for k in fixed):
+        mech = "scipydistribution-plain-keyword-after-fixed-wins"
     ctx.check("c11.constructed", ok, f"{fam}: f_<name> not in .parameters after construction", mech, got=d.parameters, **info)
 
     # 2. evaluation uses the fixed value
